@@ -1,6 +1,9 @@
 package store
 
-import "verifharness/sqlfault"
+import (
+	"verifharness/iofault"
+	"verifharness/sqlfault"
+)
 
 // Read faults of the store family: thin wrappers around harness/sqlfault (SQLite authorizer), one operation at a time.
 var authPath string
@@ -36,5 +39,18 @@ func probeReads(kd kindDriver, op Op) (int, error) {
 	sqlfault.Arm(kd.twinPath(), sqlfault.Spec{Count: true})
 	_ = kd.twinProcess(op)
 	_, _, n := sqlfault.Disarm(kd.twinPath())
+	return n, kd.rebuildTwin()
+}
+
+// probeIO counts the page reads (writes) of the operation by running it on the twin.
+func probeIO(kd kindDriver, op Op, kind int) (int, error) {
+	if err := kd.rebuildTwin(); err != nil {
+		return 0, err
+	}
+	if err := iofault.Arm(kd.twinPath(), kind, 0); err != nil {
+		return 0, err
+	}
+	_ = kd.twinProcess(op)
+	_, n := iofault.Disarm()
 	return n, kd.rebuildTwin()
 }
